@@ -44,7 +44,7 @@ def load_json(path, default):
 
 
 def bfile(unit):
-    return os.path.join(VERIF, 'baseline', re.sub(r'[^A-Za-z0-9_.-]', '_', unit) + '.json')
+    return os.path.join(VERIF, 'baseline', core.safe_name(unit) + '.json')
 
 
 def load_baseline():
